@@ -1910,6 +1910,7 @@ func (d *decoderSimpleBytes) kSlice(f *decFnInfo, rv reflect.Value) {
 	var rv9 reflect.Value
 
 	rvlen := rvLenSlice(rv)
+	rvlen0 := rvlen
 	rvcap := rvCapSlice(rv)
 	maxInitLen := d.maxInitLen()
 	hasLen := containerLenS >= 0
@@ -2003,7 +2004,8 @@ func (d *decoderSimpleBytes) kSlice(f *decFnInfo, rv reflect.Value) {
 		}
 
 		rv9 = rvArrayIndex(rv, j, f.ti, true)
-		if elemReset {
+		if elemReset || j >= rvlen0 {
+
 			rvSetZero(rv9)
 		}
 		if d.d.TryNil() {
@@ -5691,6 +5693,7 @@ func (d *decoderSimpleIO) kSlice(f *decFnInfo, rv reflect.Value) {
 	var rv9 reflect.Value
 
 	rvlen := rvLenSlice(rv)
+	rvlen0 := rvlen
 	rvcap := rvCapSlice(rv)
 	maxInitLen := d.maxInitLen()
 	hasLen := containerLenS >= 0
@@ -5784,7 +5787,8 @@ func (d *decoderSimpleIO) kSlice(f *decFnInfo, rv reflect.Value) {
 		}
 
 		rv9 = rvArrayIndex(rv, j, f.ti, true)
-		if elemReset {
+		if elemReset || j >= rvlen0 {
+
 			rvSetZero(rv9)
 		}
 		if d.d.TryNil() {
